@@ -166,6 +166,26 @@ impl<V> Signed<V> {
 """
 
 
+ORD_VIEW = r"""
+// A1: #[derive(PartialOrd)] on View is lexicographic in field order (genesis, epoch, number); the order on hashes is opaque
+pub uninterp spec fn hash_cmp(a: GenesisHash, b: GenesisHash) -> Ordering;
+pub broadcast axiom fn hash_cmp_refl(a: GenesisHash) ensures #[trigger] hash_cmp(a, a) == Ordering::Equal;
+impl PartialOrd for View { #[verifier::external_body] fn partial_cmp(&self, other: &Self) -> (r: Option<Ordering>) { unimplemented!() } }
+impl PartialOrdSpecImpl for View {
+    open spec fn obeys_partial_cmp_spec() -> bool { true }
+    open spec fn partial_cmp_spec(&self, other: &Self) -> Option<Ordering> {
+        Some(match hash_cmp(self.genesis, other.genesis) {
+            Ordering::Equal => match ord_u64(self.epoch.0, other.epoch.0) {
+                Ordering::Equal => ord_u64(self.number.0, other.number.0),
+                o => o,
+            },
+            o => o,
+        })
+    }
+}
+"""
+
+
 def add_base_types(U):
     """hashes, numbers, View, BlockHeader, Payload, Schedule (stubbed methods), Signed."""
     U.raw(common.STD_OPTION_COPIED + common.STD_COMBINATORS + PRELUDE_CRYPTO, label="prelude crypto")
@@ -180,6 +200,7 @@ def add_base_types(U):
     U.item(F_BLOCK, "struct Payload")
     U.raw(clone_impl("Payload"), label="clone Payload")
     U.item(V2 + "consensus.rs", "struct View", attrs=D_COPY)
+    U.raw(ORD_VIEW, label="derive(PartialOrd) for View")
     U.item(V2 + "block.rs", "struct BlockHeader", attrs=D_COPY)
     U.item(F_SCHED, "struct ValidatorInfo", subs=[("validator::PublicKey", "PublicKey")])
     U.item(F_SCHED, "enum LeaderSelectionMode", attrs="#[derive(PartialEq, Eq, Structural)]")
